@@ -24,6 +24,24 @@ Open Scope list_scope.
 (* ================================================================== A. the cut graph, block by block *)
 Definition ERRI : ins := mkIns 0 ICustomErr.
 
+(* appended err instructions define no label *)
+Lemma find_label_from_app l : forall p1 p2 k acc,
+  find_label_from l (p1 ++ p2) k acc = find_label_from l p2 (k + length p1) (find_label_from l p1 k acc).
+Proof.
+  induction p1 as [|i p1 IH]; intros p2 k acc; simpl.
+  - rewrite Nat.add_0_r. reflexivity.
+  - rewrite IH. f_equal. lia.
+Qed.
+
+Lemma find_label_from_errs l : forall m k acc, find_label_from l (repeat ERRI m) k acc = acc.
+Proof. induction m as [|m IH]; intros k acc; simpl; [reflexivity | apply IH]. Qed.
+
+Lemma find_label_errs p m l : find_label (p ++ repeat ERRI m) l = find_label p l.
+Proof. unfold find_label. rewrite find_label_from_app, find_label_from_errs. reflexivity. Qed.
+
+Lemma branch_to_next_errs p m br k : branch_to_next (p ++ repeat ERRI m) br k = branch_to_next p br k.
+Proof. unfold branch_to_next. destruct br; try reflexivity; rewrite find_label_errs; reflexivity. Qed.
+
 Lemma cut_next_length' : forall l v e, length (cut_next l v e) = length l.
 Proof. exact cut_next_length. Qed.
 
@@ -901,23 +919,25 @@ Section CutFun.
       apply (Hnf pos args outs op Hin); first [rewrite (Hag pos Hk); exact Hop | rewrite <- (Hag pos Hk); exact Hop].
   Qed.
 
-  Lemma exit_is_last_mono blk' b0 :
-    b_ins blk' = b_ins b0 -> exit_is_last f' blk' = true -> exit_is_last W b0 = true.
+  (* "the branch targets the next line" is read off the jump target: the appended err instructions do not matter *)
+  Lemma exit_to_next_cut blk' b0 :
+    b_ins blk' = b_ins b0 -> fexit_op f' blk' = fexit_op W b0 -> exit_to_next f' blk' = exit_to_next W b0.
   Proof.
-    unfold exit_is_last. intros -> H. apply Nat.leb_le in H. apply Nat.leb_le.
-    destruct cf_prog as (m & E). rewrite E, app_length in H. rewrite W_prog. lia.
+    intros Hi Hex. unfold exit_to_next. rewrite Hex, Hi. destruct (fexit_op W b0) as [br|]; [|reflexivity].
+    destruct cf_prog as (m & E). rewrite E, W_prog. apply branch_to_next_errs.
   Qed.
 
   Lemma jump_ok_fwd blk' b0 jumped b' :
-    b_ins blk' = b_ins b0 ->
+    b_ins blk' = b_ins b0 -> fexit_op f' blk' = fexit_op W b0 ->
     (b_next blk' = b_next b0 \/ exists e0, b_next blk' = cut_next (b_next b0) b' e0) ->
     jump_ok W b0 jumped b' -> jump_ok f' blk' jumped b'.
   Proof.
-    intros Hi Hnx Hj. unfold jump_ok in *. destruct Hnx as [E|(e0 & E)]; rewrite E.
-    - destruct (b_next b0) as [|d [|j r]]; try exact Hj; intros H; apply Hj; eapply exit_is_last_mono; eauto.
+    intros Hi Hex Hnx Hj. unfold jump_ok in *. rewrite (exit_to_next_cut blk' b0 Hi Hex).
+    destruct Hnx as [E|(e0 & E)]; rewrite E.
+    - exact Hj.
     - destruct (b_next b0) as [|d [|j r]]; cbn [cut_next].
-      + intros H; apply Hj; eapply exit_is_last_mono; eauto.
-      + destruct (Nat.eqb d b'); intros H; apply Hj; eapply exit_is_last_mono; eauto.
+      + exact Hj.
+      + destruct (Nat.eqb d b'); exact Hj.
       + subst b'. destruct jumped.
         * pose proof (Nat.eqb_refl j) as Ej. destruct (Nat.eqb d j); destruct (Nat.eqb j j); try discriminate; reflexivity.
         * pose proof (Nat.eqb_refl d) as Ed. destruct (Nat.eqb d d); [|discriminate]. destruct (Nat.eqb j d); reflexivity.
@@ -944,7 +964,7 @@ Section CutFun.
       - rewrite <- (H1 eq_refl eq_refl) in E. exact E. }
     destruct (fexit_op W blk) as [[]|] eqn:Eop; try exact I;
       destruct (popped tr) as [|v [|? ?]]; try exact I;
-      (eapply jump_ok_fwd; [exact Hi | eapply Hedge; eauto | exact Hbr]).
+      (eapply jump_ok_fwd; [exact Hi | rewrite Eop; exact Hexit | eapply Hedge; eauto | exact Hbr]).
   Qed.
 
   Lemma cf_execfrom_fwd e sem : forall c cs cfgs, ExecFrom e sem W c cs cfgs -> follows cfgs -> cfg_in c ->
@@ -1097,19 +1117,14 @@ Section CutFun.
   Qed.
 
   (* ---------------------------------------------------------------- concrete executions *)
-  (* in the contract no conditional branch is the last instruction of the program: Spec/Exec.jump_ok treats such
-     a branch specially (not jumping would fall off the program), and the function's program is longer *)
-  Definition final_branch_free : Prop :=
-    forall x b0 l, fblock W x = Some b0 ->
-      fexit_op W b0 = Some (IBZ l) \/ fexit_op W b0 = Some (IBNZ l) -> exit_is_last W b0 = false.
-
   Lemma jump_ok_bwd blk' b0 jumped b' :
-    Forall2 (nrel N0) (b_next blk') (b_next b0) -> ~ is_err_block b' -> exit_is_last W b0 = false ->
+    b_ins blk' = b_ins b0 -> fexit_op f' blk' = fexit_op W b0 ->
+    Forall2 (nrel N0) (b_next blk') (b_next b0) -> ~ is_err_block b' ->
     jump_ok f' blk' jumped b' -> jump_ok W b0 jumped b'.
   Proof.
-    intros Hnx Hne Hl Hj. unfold jump_ok in *.
-    destruct Hnx as [|d' d l' l Hd Hr]; [intros H; congruence|].
-    destruct Hr as [|j' j l' l Hj' Hr]; [intros H; congruence|].
+    intros Hi Hex Hnx Hne Hj. unfold jump_ok in *. rewrite (exit_to_next_cut blk' b0 Hi Hex) in Hj.
+    destruct Hnx as [|d' d l' l Hd Hr]; [exact Hj|].
+    destruct Hr as [|j' j l' l Hj' Hr]; [exact Hj|].
     subst b'. destruct jumped; [apply (nrel_old j' j Hj' Hne) | apply (nrel_old d' d Hd Hne)].
   Qed.
 
@@ -1117,10 +1132,10 @@ Section CutFun.
     ExecFrom e sem f c cs cfgs -> exists blk tr cs', fblock f (fst c) = Some blk /\ bexec e sem (fn_prog f) blk cs tr cs'.
   Proof. intros H. inversion H; subst; eauto. Qed.
 
-  Lemma cf_execfrom_bwd e sem : final_branch_free ->
+  Lemma cf_execfrom_bwd e sem :
     forall c cs cfgs, ExecFrom e sem f' c cs cfgs -> ExecFrom e sem W c cs cfgs /\ follows cfgs.
   Proof.
-    intros Hfb. induction 1 as [c cs blk' tr cs' Hb Hex|c c' rest cs blk' tr cs' Hb Hex Hstep Hbr Hrest IH].
+    induction 1 as [c cs blk' tr cs' Hb Hex|c c' rest cs blk' tr cs' Hb Hex Hstep Hbr Hrest IH].
     - assert (Hne : ~ is_err_block (fst c)) by (intro He; exact (err_block_fails e sem _ _ _ _ _ Hb He Hex)).
       destruct (cf_block_bwd (fst c) blk' Hb Hne) as (b0 & HW & Hi & _).
       split; [|apply follows_one]. apply (EF_last e sem W c cs b0 tr cs' HW).
@@ -1138,19 +1153,19 @@ Section CutFun.
       + unfold branch_ok in *. rewrite Hexit in Hbr.
         destruct (fexit_op W b0) as [[]|] eqn:Eop; try exact I;
           destruct (popped tr) as [|v [|? ?]]; try exact I;
-          (eapply jump_ok_bwd; [exact Hnx | exact Hne' | eapply Hfb; eauto | exact Hbr]).
+          (eapply jump_ok_bwd; [exact Hi | first [exact Hexit | rewrite Eop; exact Hexit] | exact Hnx | exact Hne' | exact Hbr]).
   Qed.
 
   Theorem cut_exec_sound e sem cfgs :
-    final_branch_free -> Exec e sem f' cfgs -> Exec e sem W cfgs /\ follows cfgs.
-  Proof. intros Hfb H. exact (cf_execfrom_bwd e sem Hfb (0, []) [] cfgs H). Qed.
+    Exec e sem f' cfgs -> Exec e sem W cfgs /\ follows cfgs.
+  Proof. intros H. exact (cf_execfrom_bwd e sem (0, []) [] cfgs H). Qed.
 
   (* (2) every approving execution of the cut function is an approving execution of the contract that follows the path *)
   Theorem cut_accepts_sound e sem cfgs :
-    final_branch_free -> Accepts e sem f' cfgs -> Accepts e sem W cfgs /\ follows cfgs.
+    Accepts e sem f' cfgs -> Accepts e sem W cfgs /\ follows cfgs.
   Proof.
-    intros Hfb (Hex & [Hrun (lb & Hlb & Hleaf)] & Hret & blk' & Hb' & Hop).
-    destruct (cut_exec_sound e sem cfgs Hfb Hex) as [HexW Hf]. split; [|exact Hf].
+    intros (Hex & [Hrun (lb & Hlb & Hleaf)] & Hret & blk' & Hb' & Hop).
+    destruct (cut_exec_sound e sem cfgs Hex) as [HexW Hf]. split; [|exact Hf].
     change (final f' cfgs) with (final W cfgs) in *. rewrite Hb' in Hlb. inversion Hlb; subst lb.
     assert (Hne : ~ is_err_block (fst (final W cfgs))).
     { intro He. destruct (cf_err_block _ blk' Hb' He) as (_ & pos & _ & _ & _ & Hop'). congruence. }
@@ -1164,28 +1179,9 @@ Section CutFun.
 
   (* the two directions together *)
   Theorem cut_accepts_iff e sem cfgs :
-    final_branch_free -> (Accepts e sem f' cfgs <-> Accepts e sem W cfgs /\ follows cfgs).
+    Accepts e sem f' cfgs <-> Accepts e sem W cfgs /\ follows cfgs.
   Proof.
-    intros Hfb. split; [apply cut_accepts_sound; exact Hfb|]. intros [H Hf]. apply cut_accepts_complete; assumption.
-  Qed.
-
-  (* the hypothesis, on the program text *)
-  Definition last_not_branch (pr : prog) : Prop :=
-    match op_at pr (length pr - 1) with Some (IBZ _) | Some (IBNZ _) => False | _ => True end.
-
-  Lemma last_not_branch_free : last_not_branch (t_prog t) -> final_branch_free.
-  Proof.
-    intros Hl x b0 l HW Hop. unfold exit_is_last. rewrite W_prog. apply Nat.leb_gt.
-    apply W_fblock_tblock in HW.
-    assert (Hex : exists k r, b_ins b0 = k :: r).
-    { unfold fexit_op in Hop. destruct (b_ins b0) as [|k r]; [destruct Hop; discriminate | eauto]. }
-    destruct Hex as (k & r & Ei).
-    assert (Hlt : last (b_ins b0) 0 < length (t_prog t)).
-    { apply (tblock_ins_lt x b0 _ HW). rewrite Ei. apply last_In_ne. discriminate. }
-    destruct (Nat.eq_dec (S (last (b_ins b0) 0)) (length (t_prog t))) as [E|E]; [|lia].
-    exfalso. unfold last_not_branch in Hl. replace (length (t_prog t) - 1) with (last (b_ins b0) 0) in Hl by lia.
-    unfold fexit_op in Hop. rewrite Ei in Hop. rewrite <- Ei in Hop. rewrite W_prog in Hop.
-    destruct Hop as [Hop|Hop]; rewrite Hop in Hl; exact Hl.
+    split; [apply cut_accepts_sound|]. intros [H Hf]. apply cut_accepts_complete; assumption.
   Qed.
 
   (* ================================================================== F. the statements in prefix form *)
@@ -1291,18 +1287,18 @@ Section CutFun.
 
   (* (2), prefix form *)
   Theorem cut_accepts_sound_prefix e sem cfgs :
-    final_branch_free -> path_plain -> Accepts e sem f' cfgs ->
+    path_plain -> Accepts e sem f' cfgs ->
     Accepts e sem W cfgs /\ map fst (firstn (length path) cfgs) = firstn (length cfgs) path.
   Proof.
-    intros Hfb Hpl H. destruct (cut_accepts_sound e sem cfgs Hfb H) as [HW Hf]. split; [exact HW|].
+    intros Hpl H. destruct (cut_accepts_sound e sem cfgs H) as [HW Hf]. split; [exact HW|].
     apply follows_prefix_list; [|exact Hf | exact Hpl]. destruct HW as (Hex & _). exact (Exec_Run e sem W cfgs Hex).
   Qed.
 
   Corollary cut_accepts_sound_prefix_long e sem cfgs :
-    final_branch_free -> path_plain -> Accepts e sem f' cfgs -> length path <= length cfgs ->
+    path_plain -> Accepts e sem f' cfgs -> length path <= length cfgs ->
     Accepts e sem W cfgs /\ map fst (firstn (length path) cfgs) = path.
   Proof.
-    intros Hfb Hpl H Hlen. destruct (cut_accepts_sound_prefix e sem cfgs Hfb Hpl H) as [HW E]. split; [exact HW|].
+    intros Hpl H Hlen. destruct (cut_accepts_sound_prefix e sem cfgs Hpl H) as [HW E]. split; [exact HW|].
     rewrite E. apply firstn_all2. exact Hlen.
   Qed.
 
@@ -1521,25 +1517,25 @@ Section Final.
   Proof. cf_shape Hcf. apply (cut_run_sound p t path); assumption. Qed.
 
   Theorem cutfun_exec_sound e sem cfgs :
-    final_branch_free t -> Exec e sem f' cfgs -> Exec e sem W cfgs /\ follows path cfgs.
+    Exec e sem f' cfgs -> Exec e sem W cfgs /\ follows path cfgs.
   Proof. cf_shape Hcf. apply (cut_exec_sound p t path); assumption. Qed.
 
   Theorem cutfun_accepts_sound e sem cfgs :
-    final_branch_free t -> Accepts e sem f' cfgs -> Accepts e sem W cfgs /\ follows path cfgs.
+    Accepts e sem f' cfgs -> Accepts e sem W cfgs /\ follows path cfgs.
   Proof. cf_shape Hcf. apply (cut_accepts_sound p t path); assumption. Qed.
 
   Theorem cutfun_accepts_iff e sem cfgs :
-    final_branch_free t -> (Accepts e sem f' cfgs <-> Accepts e sem W cfgs /\ follows path cfgs).
+    Accepts e sem f' cfgs <-> Accepts e sem W cfgs /\ follows path cfgs.
   Proof. cf_shape Hcf. apply (cut_accepts_iff p t path); assumption. Qed.
 
   (* (2) in prefix form *)
   Theorem cutfun_accepts_sound_prefix e sem cfgs :
-    final_branch_free t -> path_plain t path -> Accepts e sem f' cfgs ->
+    path_plain t path -> Accepts e sem f' cfgs ->
     Accepts e sem W cfgs /\ map fst (firstn (length path) cfgs) = firstn (length cfgs) path.
   Proof. cf_shape Hcf. apply (cut_accepts_sound_prefix p t path); assumption. Qed.
 
   Theorem cutfun_accepts_sound_prefix_long e sem cfgs :
-    final_branch_free t -> path_plain t path -> Accepts e sem f' cfgs -> length path <= length cfgs ->
+    path_plain t path -> Accepts e sem f' cfgs -> length path <= length cfgs ->
     Accepts e sem W cfgs /\ map fst (firstn (length path) cfgs) = path.
   Proof. cf_shape Hcf. apply (cut_accepts_sound_prefix_long p t path); assumption. Qed.
 
@@ -1647,4 +1643,3 @@ Print Assumptions cutfun_sub_blocks_shared.
 Print Assumptions cutfun_prog.
 Print Assumptions cutfun_fee_context_sound.
 Print Assumptions cutfun_int_context_sound.
-Print Assumptions last_not_branch_free.
